@@ -172,6 +172,18 @@ pub fn plan(tier: Tier) -> Plan {
             }
         }));
     }
+    {
+        let total = if thorough { 630 } else { 84 };
+        for part in 0..16usize {
+            p.units.push(unit("mixed-mid-size-family-(finite-family)", format!("mixed part {}", part), move |st, rep| {
+                for (i, (_, kvs)) in mixed_family(total).into_iter().enumerate() {
+                    if i % 16 != part || kvs.len() > 500 { continue; }
+                    st.nontrivial += 1;
+                    do_case(&kvs, DEFAULT_GEOM, false, &[], st, rep);
+                }
+            }));
+        }
+    }
     p.units.push(unit("long-key-family", "long keys".into(), move |st, rep| {
         for (_, kvs) in long_key_family() {
             if kvs[0].0.len() > 2000 {
